@@ -56,12 +56,12 @@ class C01(Prop):
 
     def compare(self, case: dict, i: Any, m: Any) -> str | None:
         for k in ("status", "values", "error", "raised"):
-            if i.get(k) != m.get(k):
+            if impl.differ(i.get(k), m.get(k)):
                 return f"{k}: impl={i.get(k)!r} model={m.get(k)!r}"
         ic, mc = i["calls"], m["calls"]
         if case["runner"] == "async":
             ic, mc = impl.sort_calls(ic), impl.sort_calls(mc)
-        if ic != mc:
+        if impl.differ(ic, mc):
             return f"call log differs: impl={ic!r} model={mc!r}"
         return None
 
@@ -79,12 +79,16 @@ class C01(Prop):
         exposed = refeval.graph_outputs(program, len(program) - 1)
         expect = {k: enc_val(v) for k, v in ref.values.items() if k in exposed}
         got = dict((k, v) for k, v in obs["values"])
-        if got != expect:
+        if impl.differ(got, expect) and got == expect:
+            # the results differ only by an equal value of another type (True vs 1): the version of a name does not advance when it is
+            # replaced by an EQUAL value, so consumers keep what they computed from the earlier, equal one (known finding C01-F2)
+            return f"returned values differ from dependency-order evaluation only by equal values of another type: got {got!r}, expected {expect!r}"
+        if impl.differ(got, expect):
             return f"returned values differ from dependency-order evaluation: got {got!r}, expected {expect!r}"
         exp_calls = impl.sort_calls([[f, [[k, enc_val(v)] for k, v in kw.items()]] for f, kw in ref.calls])
         got_calls = impl.sort_calls(obs["calls"])
         if not has_fed_default(program):
-            if got_calls != exp_calls:
+            if impl.differ(got_calls, exp_calls):
                 return f"node invocations differ: got {got_calls!r}, expected exactly once each {exp_calls!r}"
         else:
             ran = {c[0] for c in got_calls}
@@ -95,6 +99,8 @@ class C01(Prop):
     def signature(self, case: dict, obs: Any, why: str) -> str:
         from ..engine import canonical_hash
 
+        if "only by equal values of another type" in why:
+            return "site:update_value/equal-value-other-type"
         return "case:" + canonical_hash({"program": case["program"], "values": case["values"]})
 
     def expand_fixed(self, case: dict) -> list[dict]:
